@@ -1308,6 +1308,85 @@ def gen_xycoords_rounding():
            'end PhotVerif.Gen.XyRounding\n')
     return 'XyRounding.lean', src_all, out
 
+# ---------------------------------------------------------------- star finders: the finite-value filter covers the reported columns (C14)
+
+FINDER_CATALOGS = (('photutils/detection/daofinder.py', 'DAOStarFinder', '_DAOStarFinderCatalog'),
+                   ('photutils/detection/irafstarfinder.py', 'IRAFStarFinder', '_IRAFStarFinderCatalog'),
+                   ('photutils/detection/starfinder.py', 'StarFinder', '_StarFinderCatalog'))
+
+
+def gen_finder_table():
+    """per star finder: the default columns of the returned table, the attributes `apply_filters` requires to be finite (the loop
+    `for attr in attrs: mask &= np.isfinite(getattr(self, attr))`), the `continue` exemptions inside that loop, and - for reported columns
+    that are NOT in the filter - the tested attributes defined from them and the columns that are pixel counts."""
+    rows, exempt, links, counts, src_all = [], [], [], [], ''
+    for f, finder, cat in FINDER_CATALOGS:
+        src = open(os.path.join(REPO, f)).read()
+        src_all += src
+        tree = ast.parse(src)
+        init = _cls_method(tree, cat, '__init__')
+        cols = [x.value for x in ast.walk(init) if isinstance(x, ast.Assign) and len(x.targets) == 1
+                and ast.unparse(x.targets[0]) == 'self.default_columns']
+        if len(cols) != 1 or not isinstance(cols[0], ast.Tuple) or not all(isinstance(e, ast.Constant) and isinstance(e.value, str) for e in cols[0].elts):
+            raise Unsupported(f'{cat}.__init__: expected exactly one `self.default_columns = (<string literals>)`')
+        cols = [e.value for e in cols[0].elts]
+        flt = _cls_method(tree, cat, 'apply_filters')
+        asg = [x.value for x in flt.body if isinstance(x, ast.Assign) and len(x.targets) == 1 and ast.unparse(x.targets[0]) == 'attrs']
+        loops = [x for x in flt.body if isinstance(x, ast.For) and ast.unparse(x.iter) == 'attrs' and isinstance(x.target, ast.Name)]
+        if len(asg) != 1 or len(loops) != 1 or not isinstance(asg[0], ast.Tuple) or not all(isinstance(e, ast.Constant) for e in asg[0].elts):
+            raise Unsupported(f'{cat}.apply_filters: expected `attrs = (<string literals>)` and one `for attr in attrs:` loop')
+        attrs = [e.value for e in asg[0].elts]
+        v = loops[0].target.id
+        body = loops[0].body
+        want = f'mask &= np.isfinite(getattr(self, {v}))'
+        if not body or ast.unparse(body[-1]) != want:
+            raise Unsupported(f'{cat}.apply_filters: the loop over attrs does not end with `{want}`')
+        for st in body[:-1]:
+            if isinstance(st, ast.If) and len(st.body) == 1 and isinstance(st.body[0], ast.Continue) and not st.orelse:
+                exempt.append((finder, ast.unparse(st.test)))
+            else:
+                raise Unsupported(f'{cat}.apply_filters: unexpected statement in the loop over attrs: {ast.unparse(st)[:60]}')
+        # the rows that go on to the bounds filter are exactly self[mask]
+        after = [ast.unparse(x) for x in flt.body if isinstance(x, ast.Assign) and ast.unparse(x.targets[0]) == 'newcat']
+        if not after or after[0] != 'newcat = self[mask]':
+            raise Unsupported(f'{cat}.apply_filters: the finite mask is not applied first (`newcat = self[mask]`)')
+        rows.append((finder, cols, attrs))
+
+        def ret_expr(name):
+            m = _cls_method(tree, cat, name)
+            return ' || '.join(ast.unparse(x.value) for x in ast.walk(m) if isinstance(x, ast.Return) and x.value is not None)
+        for c in cols:
+            if c in attrs or c == 'id':
+                continue
+            e = ret_expr(c)
+            if e.startswith(('np.full(len(self), fill_value=', 'np.count_nonzero(')) and ' || ' not in e:
+                counts.append((finder, c, e))                       # an integer count: always finite
+            for a in attrs:
+                try:
+                    ea = ret_expr(a)
+                except Unsupported:
+                    continue
+                if f'self.{c}' in ea:
+                    links.append((finder, c, a, ea))
+    def lst(xs):
+        return '[' + ', '.join('"' + x.replace('\\', '\\\\').replace('"', '\\"') + '"' for x in xs) + ']'
+    out = ('/- GENERATED by tools/extract_tables.py from photutils/detection/{daofinder,irafstarfinder,starfinder}.py '
+           f'(sha256/16 {sha(src_all)}). DO NOT EDIT. -/\n'
+           'import PhotVerif.Model.Prelude\nnamespace PhotVerif.Gen.FinderTable\n\n'
+           '/-- (finder, default columns of the returned table, attributes the finite-value filter of `apply_filters` tests) -/\n'
+           'def rows : List (String × List String × List String) := [\n  '
+           + ',\n  '.join(f'("{a}", {lst(c)}, {lst(t)})' for a, c, t in rows) + ']\n\n'
+           '/-- (finder, condition) of every `if <condition>: continue` inside the finite-value loop -/\n'
+           'def exemptions : List (String × String) := [' + ', '.join(f'("{a}", {lst([c])[1:-1]})' for a, c in exempt) + ']\n\n'
+           '/-- (finder, reported column the filter does not test, tested attribute defined from it, the defining expression of that attribute) -/\n'
+           'def links : List (String × String × String × String) := ['
+           + ', '.join(f'("{a}", "{c}", "{t}", {lst([e])[1:-1]})' for a, c, t, e in links) + ']\n\n'
+           '/-- (finder, reported column the filter does not test, its defining expression) when that expression is a pixel count -/\n'
+           'def integerColumns : List (String × String × String) := ['
+           + ', '.join(f'("{a}", "{c}", {lst([e])[1:-1]})' for a, c, e in counts) + ']\n\n'
+           'end PhotVerif.Gen.FinderTable\n')
+    return 'FinderTable.lean', src_all, out
+
 # ---------------------------------------------------------------- squares of error maps are taken on float values (C15, C02, C07, C19)
 
 SQUARE_SCOPE = ['aperture/core.py', 'aperture/stats.py', 'segmentation/catalog.py', 'centroids/gaussian.py', 'utils/errors.py', 'profiles/core.py',
